@@ -82,6 +82,7 @@ def _inner(k, pre, it):
 class SC_apply(Contract):
     qualname = "pyoma2.functions.gen.SC_apply"
     props = ("C10",)
+    bounded_driver = {"driver": "c10_fn", "inputs": {}}      # native fallback when the body leaves the subset (the crafted tables need no counter-model)
     loops = {0: LoopSpec(_outer), 1: LoopSpec(_inner)}
     use = {"pyoma2.functions.gen.MAC": "abstract"}
 
